@@ -7,7 +7,7 @@ HERE=$(cd "$(dirname "$0")/.." && pwd)
 D=$1; shift
 SCR=/var/tmp/seedtest.$$; rm -rf $SCR; mkdir -p $SCR/v
 rsync -a --exclude .git /repo/ $SCR/repo/
-cp $HERE/known_findings.json $SCR/v/
+cp $HERE/known_findings.json $SCR/v/; cp -r $HERE/bounded $SCR/v/bounded
 prop=$(python3 -c "import json;print(json.load(open('$D/meta.json'))['property'])")
 props=${*:-$prop}
 pkgdir=$(python3 -c "import json;print(json.load(open('$D/meta.json')).get('demo_dir','.'))")
